@@ -199,16 +199,24 @@ class Constraints:
 
 
 class Mem:
-    """abstract objects: name -> list of byte cells; a byte cell is a list of 8 bits or ('ptr', Ptr, k)"""
+    """abstract objects: name -> list of byte cells; a byte cell is a list of 8 bits or ('ptr', Ptr, k) / ('tag', Tag, k).
+    Copy-on-write: clones share the cell lists until one of them writes (use wcells() before mutating)."""
     def __init__(self):
-        self.objs = {}; self.ro = set(); self.hooks = {}
+        self.objs = {}; self.ro = set(); self.hooks = {}; self.owned = set()
 
     def clone(self):
-        m = Mem(); m.objs = {k: list(v) for k, v in self.objs.items()}; m.ro = self.ro; m.hooks = self.hooks
+        m = Mem(); m.objs = dict(self.objs); m.ro = self.ro; m.hooks = self.hooks
+        self.owned = set()
         return m
 
     def new(self, name, size, fill=U):
         self.objs[name] = [[fill] * 8 if fill != 0 else [0] * 8 for _ in range(size)]
+        self.owned.add(name)
+
+    def wcells(self, name):
+        if name not in self.owned:
+            self.objs[name] = list(self.objs[name]); self.owned.add(name)
+        return self.objs[name]
 
     def size(self, name):
         return len(self.objs[name])
@@ -257,9 +265,12 @@ class Interp:
             g = self.P.globals.get(name)
             if g is None or 'init' not in g:
                 raise Unmodelled('access to global %s without initialiser' % name)
-            cells = []
-            self._flatten(g['init'], cells)
-            st.mem.objs[key] = cells
+            if not hasattr(self, '_gimg'): self._gimg = {}
+            if name not in self._gimg:
+                cells = []
+                self._flatten(g['init'], cells)
+                self._gimg[name] = cells
+            st.mem.objs[key] = self._gimg[name]          # shared image: copy-on-write protects it
         return key
 
     def _flatten(self, t, cells):
@@ -350,12 +361,12 @@ class Interp:
             # weak update: the whole object becomes unknown
             if isinstance(ptr, Ptr) and ptr.obj in st.mem.objs:
                 d = 0
-                st.mem.objs[ptr.obj] = [[T(d)] * 8 for _ in st.mem.objs[ptr.obj]]
+                st.mem.objs[ptr.obj] = [[T(d)] * 8 for _ in st.mem.objs[ptr.obj]]; st.mem.owned.add(ptr.obj)
                 return
             raise Unmodelled('store through unknown pointer at %s' % inst.loc)
         if obj in st.mem.ro or obj.startswith('g:') and self.P.globals.get(obj[2:], {}).get('constant'):
             st.events.append(('write-to-constant', inst.loc, obj))
-        cells = st.mem.objs[obj]
+        cells = st.mem.wcells(obj)
         if isinstance(val, Ptr):
             for k in range(8): cells[off + k] = ('ptr', val, k)
         elif isinstance(val, Tag):
@@ -388,6 +399,16 @@ class Interp:
         raise Unmodelled('operand kind %s' % k)
 
     def add(self, a, b, cin=0):
+        # fast path: both operands concrete
+        va = vb = 0; conc = True
+        for k, (x, y) in enumerate(zip(a, b)):
+            if x == 1: va |= 1 << k
+            elif x != 0: conc = False; break
+            if y == 1: vb |= 1 << k
+            elif y != 0: conc = False; break
+        if conc and (cin == 0 or cin == 1):
+            r = va + vb + cin
+            return [(r >> k) & 1 for k in range(len(a))]
         out = []; c = cin
         for x, y in zip(a, b):
             xy = bxor(x, y)
@@ -716,7 +737,7 @@ class Interp:
                 nc.append(bits)
             newobjs[name] = nc
         st = State(Mem(), parent_cons.clone())
-        st.mem.objs = newobjs; st.mem.ro = s0.mem.ro; st.mem.hooks = s0.mem.hooks
+        st.mem.objs = newobjs; st.mem.ro = s0.mem.ro; st.mem.hooks = s0.mem.hooks; st.mem.owned = set()
         st.trace = s0.trace
         st.events = s0.events + [e for e in s1.events if e not in s0.events]
         st.cons.opaque = list(s0.cons.opaque)
@@ -856,14 +877,14 @@ class Interp:
             if n is None:
                 st.trace.append(('memcpy-symbolic-size', repr(d), repr(s), self.V.show_bv(args[2])[:3], i.loc))
                 if isinstance(d, Ptr) and d.obj in st.mem.objs:
-                    st.mem.objs[d.obj] = [[T(0)] * 8 for _ in st.mem.objs[d.obj]]
+                    st.mem.objs[d.obj] = [[T(0)] * 8 for _ in st.mem.objs[d.obj]]; st.mem.owned.add(d.obj)
                 if i.d['bits']: regs[i.id] = d
                 return None
             so, soff = self._cells(st, s, n, i, 'load')
             do, doff = self._cells(st, d, n, i, 'store')
             if so is None or do is None: raise Unmodelled('memcpy with symbolic offset at %s' % i.loc)
             src = [c if isinstance(c, tuple) else list(c) for c in st.mem.objs[so][soff:soff + n]]
-            st.mem.objs[do][doff:doff + n] = src
+            st.mem.wcells(do)[doff:doff + n] = src
             if i.d['bits']: regs[i.id] = d
             return None
         if name == 'memcmp':
